@@ -102,6 +102,9 @@ type histCase struct {
 	Chains []chainDef `json:"chains"`
 	Msgs   []msgDef   `json:"msgs"`
 	Ops    []opDef    `json:"ops"`
+	// Persist: every block change flushes the block overlay into the backing store (World.PersistBlocks),
+	// so later blocks overwrite / delete PERSISTED records
+	Persist bool `json:"persist,omitempty"`
 }
 
 // ---------------------------------------------------------------------------------------------
@@ -304,6 +307,7 @@ func newEngine(ctx *ev.Ctx, f focus, c histCase) *engine {
 	}
 	e.w, e.release = newWorld(e.n)
 	e.w.Height = heightTable[mod(c.H0, len(heightTable))]
+	e.w.PersistBlocks = c.Persist
 	seen := map[string]bool{}
 	for i := range c.Msgs {
 		m := e.resolveMsg(i)
@@ -1124,6 +1128,9 @@ func (e *engine) run() {
 			e.w.NextBlock()
 			e.acceptedInBlock = 0
 		case "hgt":
+			if e.w.PersistBlocks {
+				e.w.Persist()
+			}
 			e.w.Height = heightTable[mod(op.H, len(heightTable))]
 			e.acceptedInBlock = 0
 		}
